@@ -223,6 +223,10 @@ func TestVerifSQLCap(t *testing.T) {
 				tx.ID = &id
 				return st.CommitTransaction(ctx, &tx)
 			})
+			emit("CommitTransaction.noReference", base(), st, rec, func() error {
+				tx := ledger.NewTransaction().WithPostings(ledger.NewPosting("ACC#1", "ACC#2", "AST#1", big.NewInt(700000005)))
+				return st.CommitTransaction(ctx, &tx)
+			})
 			emit("ReadLogWithIdempotencyKey", base(), st, rec, func() error {
 				_, err := st.ReadLogWithIdempotencyKey(ctx, "IK#1")
 				return err
